@@ -294,6 +294,18 @@ class IntToBa(Unit):
     def run(self, X, case, a):
         ba = X.call(conv().scsi_int_to_ba, a.x, case["n"])
         back = X.call(conv().scsi_ba_to_int, ba)
+        # the array belongs to the caller, who may go on building on it (append a LUN list to a header, patch an NAA
+        # nibble): converting the same value again afterwards still gives the conversion, in a new array
+        self.first_cells = list(ba) if isinstance(ba, (bytearray, V.SBytes)) else None
+        if isinstance(ba, V.SBytes) and ba.mutable:
+            ba.cells.append(0xAA)
+            if case["n"]:
+                ba.cells[0] = (ba.cells[0] ^ 0xFF) if not V.is_sym(ba.cells[0]) else 0x5A
+        elif isinstance(ba, bytearray):
+            ba.append(0xAA)
+            if case["n"]:
+                ba[0] ^= 0xFF
+        self.again = X.call(conv().scsi_int_to_ba, a.x, case["n"])
         return ba, back
 
     def ensures(self, case, a, out, X):
@@ -303,18 +315,25 @@ class IntToBa(Unit):
         ba, back = out.value
         n = case["n"]
         yield "C10", "is-bytearray", isinstance(ba, (bytearray, V.SBytes)) and C.is_byte_cells(ba)
-        yield "C10", "length", len(ba) == n
-        if len(ba) != n:
+        first = self.first_cells
+        yield "C10", "length", first is not None and len(first) == n
+        if first is None or len(first) != n:
             return
         exp = spec_int_to_ba(a.x, n)
         for i in range(n):
-            yield "C10", "big-endian:cell%d" % i, ba[i] == exp[i]
+            yield "C10", "big-endian:cell%d" % i, first[i] == exp[i]
         yield "C10", "ba_to_int(int_to_ba(x))==x", back == a.x
+        again = self.again
+        yield "C10", "converting-again-gives-a-new-array", again is not ba
+        ok = isinstance(again, (bytearray, V.SBytes)) and len(again) == n
+        yield "C10", "converting-again-after-the-caller-changed-its-array:length", ok
+        if ok:
+            for i in range(n):
+                yield "C10", "converting-again-after-the-caller-changed-its-array:cell%d" % i, again[i] == exp[i]
 
     def canaries(self, case, a, out, X):
         if out.kind == "return" and case["n"] >= 2:
-            ba, _ = out.value
-            yield "canary:little-endian", ba[0] == a.x % 256
+            yield "canary:little-endian", self.first_cells[0] == a.x % 256
 
 
 class BaToInt(Unit):
